@@ -250,6 +250,10 @@ def cases(tier, seed):
         yield dict(c, cfg=cfg)
         if len(seen) % 3 == 0 or (tier != "quick" and "|" not in c["label"]):
             yield dict(c, cfg=cfg, based=True, label=c["label"] + "@p")
+        if H.has_kind(c["T"], ("ptr",)) and cfg["endian"] == "<" and cfg.get("pointer") == "uint64":
+            # the pointer width is an arbitrary-width integer type (cs.pointer = uint24 / uint48)
+            for pt in ("uint24", "uint48"):
+                yield dict(c, cfg=dict(cfg, pointer=pt), label=c["label"] + "~" + pt)
         if _has_named_struct(c["T"]) and (tier != "quick" or len(seen) % 2 == 0 or "|" not in c["label"]):
             # the nested named structures come from an earlier load() with the other alignment mode, and the structure is
             # parsed at an arbitrary stream position (an aligned structure then pads differently than its size suggests)
